@@ -124,6 +124,21 @@ fn step(s: &mut Session, n: u64) -> Result<(), String> {
   match catch_unwind(AssertUnwindSafe(|| s.intrp.step(0, n))) { Ok(Ok(_)) => Ok(()), Ok(Err(e)) => Err(format!("Err({})", e.kind_name())), Err(p) => Err(format!("PANIC({})", panic_msg(p))) }
 }
 
+/// the same program driven through the REPL's `:step` command (the harness built with the `mech` crate): the snapshot after the
+/// given sequence of step requests, None when the REPL rejects a command
+#[cfg(feature = "fs")]
+fn repl_steps(al: &[St], prog: &[usize], requests: &[u64]) -> Result<Snap, String> {
+  let s = run_prog(al, prog).ok_or("program rejected")?;
+  let mut repl = mech::MechRepl::from(s.intrp);
+  for n in requests {
+    let (_, cmd) = mech_syntax::repl::parse_repl_command(&format!(":step {}", n)).map_err(|_| ":step does not parse".to_string())?;
+    match catch_unwind(AssertUnwindSafe(|| repl.execute_repl_command(cmd))) { Ok(Ok(_)) => {} Ok(Err(e)) => return Err(format!("Err({})", e.kind_name())), Err(p) => return Err(format!("PANIC({})", panic_msg(p))) }
+  }
+  let active = repl.active;
+  let intr = repl.interpreters.remove(&active).ok_or("no active interpreter")?;
+  Ok(Session { intrp: intr }.snapshot())
+}
+
 fn first_diff(a: &Snap, b: &Snap) -> String {
   for (x, y) in a.iter().zip(b.iter()) { if x != y { return format!("{}: {} vs {}", x.0, x.2.short(), y.2.short()); } }
   format!("{} vs {} names", a.len(), b.len())
@@ -266,6 +281,18 @@ impl UnitRunner for C19 {
         match step(&mut sc, n) {
           Ok(()) => { let t = sc.snapshot(); if t != singles[n as usize] { out.fail(format!("C19|n-singles-differ|{}", locus), case.clone(), format!("step(0,{}) vs {} single steps: {}", n, n, first_diff(&t, &singles[n as usize]))); } }
           Err(e) => out.fail(format!("C19|step-failed|{}", locus), case.clone(), format!("step(0,{}): {}", n, e)),
+        }
+      }
+    }
+    // the REPL's `:step` command: one request for n and n requests for 1 must both leave what n single steps of the interpreter left
+    #[cfg(feature = "fs")]
+    for n in 1..=maxn {
+      for (how, reqs) in [("one-request", vec![n]), ("single-requests", vec![1u64; n as usize])] {
+        if n == 1 && how == "single-requests" { continue; }
+        out.evaluations += 1;
+        match repl_steps(&self.al, prog, &reqs) {
+          Ok(t) => { out.nontrivial += 1; if t != singles[n as usize] { out.fail(format!("C19|repl-step-differs|{}:{}", how, locus), format!("{} ;; REPL {}", case, reqs.iter().map(|r| format!(":step {}", r)).collect::<Vec<_>>().join(" ; ")), format!("the REPL after {:?} vs {} single steps of the interpreter: {}", reqs, n, first_diff(&t, &singles[n as usize]))); } else { out.count("repl_step_agrees"); } }
+          Err(e) => { if e.starts_with("PANIC") { out.fail(format!("C19|step-failed|repl:{}", locus), case.clone(), e); } else { out.count("repl_step_rejected"); } }
         }
       }
     }
